@@ -8,7 +8,7 @@ CONSTANTS
   GapToks = {}
   Ignorables = {"sheetViews", "sheetPr", "cols"}
   MaxGaps = 0
-  PkgVary = FALSE
+  PkgVary = "none"
 CONSTRAINT GapBound
 INVARIANTS PrefixOK Sorted Refines Dump
 CHECK_DEADLOCK FALSE
